@@ -179,6 +179,33 @@ func orderRuleFuncsX(c *an.Ctx, cg *an.CG, fns []*ssa.Function, table map[string
 // callersSortFirst: every static call site of fn (in the repository) sorts
 // the returned slice before any other use.
 func callersSortFirst(c *an.Ctx, cg *an.CG, fn *ssa.Function, cfg *an.OrderCfg) (bool, string) {
+	return callersSortFirstD(c, cg, fn, cfg, 0)
+}
+
+// onlyReturned: the value's only uses are being returned (and debug references).
+func onlyReturned(v ssa.Value) bool {
+	if v.Referrers() == nil {
+		return false
+	}
+	n := 0
+	for _, r := range *v.Referrers() {
+		switch x := r.(type) {
+		case *ssa.DebugRef:
+		case *ssa.Return:
+			n++
+		case *ssa.Call:
+			// measuring the list (for a log line) does not depend on its order
+			if bi, isB := x.Call.Value.(*ssa.Builtin); !isB || (bi.Name() != "len" && bi.Name() != "cap") {
+				return false
+			}
+		default:
+			return false
+		}
+	}
+	return n > 0
+}
+
+func callersSortFirstD(c *an.Ctx, cg *an.CG, fn *ssa.Function, cfg *an.OrderCfg, depth int) (bool, string) {
 	callers := cg.Callers(fn)
 	if len(callers) == 0 {
 		return true, ""
@@ -203,6 +230,14 @@ func callersSortFirst(c *an.Ctx, cg *an.CG, fn *ssa.Function, cfg *an.OrderCfg) 
 					continue
 				}
 				if why := an.SortedBeforeUseValue(c.P, v, cfg); why != "" {
+					// a caller that only passes the list on to its own callers: they must sort it
+					if depth < 2 && onlyReturned(v) {
+						if ok2, why2 := callersSortFirstD(c, cg, e.Caller.Func, cfg, depth+1); ok2 {
+							continue
+						} else {
+							why = "returned unsorted by " + an.FuncName(e.Caller.Func) + "; " + why2
+						}
+					}
 					bad = append(bad, fmt.Sprintf("%s (%s): %s", an.FuncName(e.Caller.Func), c.P.Rel(k.Pos()), why))
 				}
 			}
@@ -423,8 +458,8 @@ func keyIsOwnField(mu *ssa.MapUpdate, field string) bool {
 func loopOwner(c *an.Ctx, cg *an.CG, fn *ssa.Function) *ssa.Function {
 	cur := fn
 	for d := 0; d < 3; d++ {
-		if cur.Parent() != nil || cur.Object() == nil || cur.Object().Exported() {
-			return cur
+		if cur.Parent() != nil || cur.Object() == nil || cur.Object().Exported() || an.IsOpaqueUnit(cur) {
+			return cur // closures, exported functions and the units the property names keep their own name
 		}
 		callers := map[*ssa.Function]bool{}
 		selfRec := false
